@@ -273,6 +273,8 @@ type vhWSCoopConn struct {
 	once     sync.Once
 	closed   bool
 	sentMsgs []string
+	timed    bool      // read deadlines expire by themselves (a timer), as on a real socket: needed by the TCP poll loop
+	rdl      time.Time // the armed read deadline
 }
 
 func newVhWSCoopConn(in int, name string, msgs int) *vhWSCoopConn {
@@ -333,16 +335,32 @@ func (c *vhWSCoopConn) Read(p []byte) (int, error) {
 		if c.next() {
 			continue
 		}
+		var expiry <-chan time.Time
+		var tm *time.Timer
+		if c.timed && !c.rdl.IsZero() {
+			tm = time.NewTimer(time.Until(c.rdl))
+			expiry = tm.C
+		}
+		stop := func() {
+			if tm != nil {
+				tm.Stop()
+			}
+		}
 		select {
 		case <-c.rexp:
 			select {
 			case c.rexp <- struct{}{}:
 			default:
 			}
+			stop()
+			return 0, vhTimeoutErr{}
+		case <-expiry:
 			return 0, vhTimeoutErr{}
 		case <-c.closeCh:
+			stop()
 			return 0, errVhStub
 		case <-c.wrote:
+			stop()
 		}
 	}
 }
@@ -367,6 +385,7 @@ func (c *vhWSCoopConn) LocalAddr() net.Addr           { return vhAddr{} }
 func (c *vhWSCoopConn) RemoteAddr() net.Addr          { return vhAddr{} }
 func (c *vhWSCoopConn) SetDeadline(t time.Time) error { return c.SetReadDeadline(t) }
 func (c *vhWSCoopConn) SetReadDeadline(t time.Time) error {
+	c.rdl = t
 	if !t.IsZero() && !t.After(time.Now()) {
 		select {
 		case c.rexp <- struct{}{}:
@@ -389,7 +408,16 @@ func (c *vhWSCoopConn) SetWriteDeadline(t time.Time) error { return nil }
 func HarnessC18WS() {
 	in := vStreamNew("in")
 	conn := newVhWSCoopConn(in, "alice", vParam("msgs", 1))
-	t := vhNewWS(conn)
+	var t Transport
+	if vParam("tcp", 0) == 1 {
+		// the real TCP transport instead (its receiver polls the socket: read deadlines are timers)
+		conn.timed = true
+		tt := vhNewTCP(conn, 4096)
+		tt.server = true
+		t = tt
+	} else {
+		t = vhNewWS(conn)
+	}
 	var handled []string
 	established, finished := 0, 0
 	estID := ""
@@ -413,9 +441,9 @@ func HarnessC18WS() {
 	ctx, cancel := context.WithCancel(context.Background())
 	go srv.consumeTransports(ctx)
 	vQuiesce()
-	vReach("c18:ws-session-settled")
-	vAssert(established == 1, "c18:ws-established-callback-once")
-	vAssert(len(handled) == len(conn.sentMsgs) && len(conn.sentMsgs) == conn.msgs, "c18:ws-every-message-handled-once")
+	vReach("c18:wire-session-settled")
+	vAssert(established == 1, "c18:wire-established-callback-once")
+	vAssert(len(handled) == len(conn.sentMsgs) && len(conn.sentMsgs) == conn.msgs, "c18:wire-every-message-handled-once")
 	for i := 0; i < len(conn.sentMsgs); i++ {
 		replies := 0
 		for q := 0; q < len(conn.frames); q++ {
@@ -429,13 +457,13 @@ func HarnessC18WS() {
 				}
 			}
 		}
-		vAssert(replies == 1, "c18:ws-reply-on-the-same-connection")
+		vAssert(replies == 1, "c18:wire-reply-on-the-same-connection")
 	}
 	cancel()
 	vSettle()
 	last := conn.lastSession()
-	vAssert(last != nil && last.State == SessionStateFinished && last.ID == estID, "c18:ws-client-observes-finished-session")
-	vAssert(conn.closed, "c18:ws-connection-closed-after-stop")
-	vAssert(finished == 1, "c18:ws-finished-callback-once")
-	vAssert(vThreadsLive() <= 0, "c18:ws-no-goroutine-left")
+	vAssert(last != nil && last.State == SessionStateFinished && last.ID == estID, "c18:wire-client-observes-finished-session")
+	vAssert(conn.closed, "c18:wire-connection-closed-after-stop")
+	vAssert(finished == 1, "c18:wire-finished-callback-once")
+	vAssert(vThreadsLive() <= 0, "c18:wire-no-goroutine-left")
 }
